@@ -68,18 +68,17 @@ def classify(diags, labels, funcs, lines):
             continue
         spans = d.get("spans", [])
         label, clause_line, site_line = None, None, None
-        for sp in spans:
+        clause_spans = [sp for sp in spans if "failed" in (sp.get("label") or "")]
+        site_spans = [sp for sp in spans if sp not in clause_spans]
+        for sp in clause_spans or spans:
             ln = sp.get("line_start")
-            # a clause may span one line only (we emit them that way)
             if ln in labels and label is None:
                 label, clause_line = labels[ln], ln
-        # site: the span that is not the clause
-        for sp in spans:
-            ln = sp.get("line_start")
-            if ln != clause_line:
-                site_line = ln
-                break
-        if site_line is None and spans:
+        if clause_line is None and clause_spans:
+            clause_line = clause_spans[0].get("line_start")
+        if site_spans:
+            site_line = site_spans[0].get("line_start")
+        elif spans:
             site_line = spans[0].get("line_start")
         fn = func_at(site_line) if site_line else None
         if fn is None and clause_line:
